@@ -1,10 +1,12 @@
 /- Dispatcher for the driver components of the discrete models (extended per property). -/
 import FFVerif.Model.Numeric
+import FFVerif.Model.Cache
 
 namespace FFVerif.Model
 
 def handleMore (toks : List String) : String :=
   match toks with
+  | ["cache", init, ops] => Cache.handleCache init ops
   | _ => "err bad-op"
 
 end FFVerif.Model
